@@ -60,6 +60,52 @@ func alphabet() []storex.Letter {
 			storex.Letter{Name: "unlock-s1 " + k, Make: kv("unlock", k, "v1", s1)},
 		)
 	}
+	// an identical re-write of what key "a" holds (through set and through cas with the current index),
+	// with an empty and with a stray session field; and the previous write of the word again, verbatim
+	restore := func(verb, session string) func(*storex.Snap, uint64) *storex.Op {
+		return func(last *storex.Snap, idx uint64) *storex.Op {
+			a := &storex.KVArg{Verb: verb, Key: "a", Val: []byte("v1"), Session: session}
+			for _, e := range last.T.KVs {
+				if e.Key == "a" {
+					a.Val, a.Flags, a.LockIdx = append([]byte(nil), e.Value...), e.Flags, e.LockIndex
+				}
+			}
+			if verb == "cas" {
+				a.ModIdx = storex.CurModify(last, "a")
+			}
+			return &storex.Op{Kind: "kv", KV: a}
+		}
+	}
+	remember := func(l storex.Letter) storex.Letter {
+		mk := l.Make
+		l.Make = func(last *storex.Snap, idx uint64) *storex.Op {
+			op := mk(last, idx)
+			if op.Kind == "kv" && (op.KV.Verb == "set" || op.KV.Verb == "cas") {
+				c := *op.KV
+				prevWrite = &c
+			}
+			return op
+		}
+		return l
+	}
+	for i := range ls {
+		ls[i] = remember(ls[i])
+	}
+	ls = append(ls,
+		storex.Letter{Name: "rewrite a identically (set, no session field)", Make: restore("set", "")},
+		storex.Letter{Name: "rewrite a identically (set, stray session field)", Make: restore("set", s2)},
+		storex.Letter{Name: "rewrite a identically (cas current, stray session field)", Make: restore("cas", s2)},
+		storex.Letter{Name: "repeat previous write verbatim", Make: func(last *storex.Snap, idx uint64) *storex.Op {
+			if prevWrite == nil {
+				return &storex.Op{Kind: "kv", KV: &storex.KVArg{Verb: "set", Key: "a", Val: []byte("v1")}}
+			}
+			a := *prevWrite
+			if a.Verb == "cas" {
+				a.ModIdx = storex.CurModify(last, a.Key)
+			}
+			return &storex.Op{Kind: "kv", KV: &a}
+		}},
+	)
 	ls = append(ls,
 		storex.Letter{Name: "delete-tree a", Make: kv("delete-tree", "a", "", "")},
 		storex.Letter{Name: "delete-tree a/", Make: kv("delete-tree", "a/", "", "")},
@@ -72,7 +118,11 @@ func alphabet() []storex.Letter {
 // lock delay of the two sessions the words use
 var variant int
 
+// the previous set / cas of the current exhaustive word (reset with every word's preamble)
+var prevWrite *storex.KVArg
+
 func preamble() []*storex.Op {
+	prevWrite = nil
 	b1, b2, delay := "release", "delete", 0
 	switch variant {
 	case 1:
@@ -102,6 +152,49 @@ func corpus(run *hx.Run, mons func() []storex.Monitor) {
 	h.ReadSweep([]string{"a", "a\x00"})
 	h.Finish()
 	run.Tag("corpus:nul-terminated-prefix")
+	corpusIdenticalRewrite(run, mons)
+}
+
+// corpusIdenticalRewrite: an identical write must be a no-op whatever the request's session field says
+// (it is never stored by set / cas): on a key held by a session with an empty and with a non-empty
+// session field, on an unlocked key with a stray session id, through set, cas, txn set and txn cas.
+func corpusIdenticalRewrite(run *hx.Run, mons func() []storex.Monitor) {
+	h := storex.NewHistory(run, run.RNG.Fork(0xC032), mons(), false)
+	s1, s2 := storex.Sessions[0], storex.Sessions[1]
+	idx := uint64(10)
+	step := func(op *storex.Op) {
+		idx++
+		op.Idx = idx
+		h.Step(op)
+	}
+	kv := func(verb, key, session string, lockIdx uint64) *storex.KVArg {
+		a := &storex.KVArg{Verb: verb, Key: key, Val: []byte("v"), Flags: 1, Session: session, LockIdx: lockIdx}
+		if verb == "cas" {
+			a.ModIdx = storex.CurModify(h.Last, key)
+		}
+		return a
+	}
+	step(&storex.Op{Kind: "reg", Reg: &storex.RegArg{Node: storex.NodeArg{Name: "n1", ID: storex.NodeIDs[1], Addr: "10.0.0.1"}}})
+	step(&storex.Op{Kind: "sc", Sess: &storex.SessArg{ID: s1, Node: "n1", Behavior: "release"}})
+	step(&storex.Op{Kind: "sc", Sess: &storex.SessArg{ID: s2, Node: "n1", Behavior: "release"}})
+	step(&storex.Op{Kind: "kv", KV: kv("lock", "k", s1, 0)})
+	for _, key := range []string{"k", "u"} { // k is held by s1, u is unlocked
+		for _, sess := range []string{"", s1, s2} {
+			for _, verb := range []string{"set", "cas"} {
+				// first write establishes the content, the repetitions must be no-ops
+				for rep := 0; rep < 3; rep++ {
+					step(&storex.Op{Kind: "kv", KV: kv(verb, key, sess, 0), ViaFSM: rep == 1})
+				}
+				for rep := 0; rep < 2; rep++ {
+					a := kv(verb, key, sess, 0)
+					step(&storex.Op{Kind: "txn", Txn: []storex.TxnOpArg{{Fam: 'k', Verb: verb, KV: a}}, ViaFSM: rep == 1})
+				}
+			}
+		}
+	}
+	h.ReadSweep([]string{"", "k"})
+	h.Finish()
+	run.Tag("corpus:identical-rewrite")
 }
 
 func main() {
